@@ -179,6 +179,11 @@ def init_repo(path, bare=False, config=None):
     for (sec, key), val in (config or {}).items():
         c.set(sec, key, val)
     c.write_to_path()
+    # no hook scripts: executing one is a real subprocess outside the simulator
+    hooks = os.path.join(r.controldir(), "hooks")
+    if R.lexists(hooks):
+        for n in R.listdir(hooks):
+            R.unlink(os.path.join(hooks, n))
     return r
 
 
